@@ -348,7 +348,13 @@ class DiffXReader(object):
 
                 self._file_newlines = b'\n'
 
-        assert header.endswith(self._file_newlines)
+        if not header.endswith(self._file_newlines):
+            # The first header line used CRLF, but this one ends in a
+            # bare LF.
+            raise DiffXParseError(
+                'Unexpected or improperly formatted header: %r' % header,
+                linenum=linenum)
+
         header = header[:-len(self._file_newlines)]
 
         m = self._HEADER_RE.match(header)
